@@ -52,6 +52,14 @@ Theorem C07_len_after : forall t (a b : Z) t', wf t -> rmslice t a b = Ok t' ->
   tc_len t' = tc_len t - (py_clamp (tc_len t) b - py_clamp (tc_len t) a).
 Proof. exact rmslice_len. Qed.
 
+(* the bytes written back after a removal: prefix, the surviving atoms' bytes in order, suffix *)
+Theorem C07_content_after : forall t (a b : Z) t', wf t -> rmslice t a b = Ok t' ->
+  py_clamp (tc_len t) a <= py_clamp (tc_len t) b ->
+  content t' = tc_before t ++
+               concat (map fst (spec_rm (py_clamp (tc_len t) a) (py_clamp (tc_len t) b) 0 (zipped t))) ++
+               tc_after t.
+Proof. exact rmslice_content. Qed.
+
 (* in the functional model copy is the identity (aliasing is covered by the
    correspondence check, which compares the source object after every operation) *)
 Theorem C07_copy : forall t, copy t = t.
@@ -79,5 +87,6 @@ Print Assumptions C07_rmslice_spec.
 Print Assumptions C07_empty_range_identity.
 Print Assumptions C07_full_range.
 Print Assumptions C07_len_after.
+Print Assumptions C07_content_after.
 Print Assumptions C07_copy.
 Print Assumptions C07_precondition_needed_refuted.
